@@ -193,11 +193,7 @@ Definition gstep (st : gstate) (e : kv) : option gstate :=
   else if list_eqb k K_time then option_map (fun t => (val, Some t)) (utc_unmarshal v)
   else Some st.
 
-Fixpoint gfold (st : gstate) (l : kvs) : option gstate :=
-  match l with
-  | [] => Some st
-  | e :: r => match gstep st e with Some st' => gfold st' r | None => None end
-  end.
+Definition gfold := ofold gstep.
 
 Definition range_unmarshal_with (order : order_t) (s : list N) : res range :=
   match kv_parse s SEMI with
@@ -209,16 +205,17 @@ Definition range_unmarshal_with (order : order_t) (s : list N) : res range :=
     end
   end.
 
-Definition range_value_marshal (v : range_value) : list N :=
+Definition opt_str {A} (f : A -> list N) (o : option A) : list N := match o with Some e => f e | None => [] end.
+Definition range_value_item (v : range_value) : item :=
   match v with
-  | RSmpte st en => K_smpte ++ [EQ] ++ smpte_marshal st ++ [DASH] ++ match en with Some e => smpte_marshal e | None => [] end
-  | RNpt st en => K_npt ++ [EQ] ++ npt_marshal st ++ [DASH] ++ match en with Some e => npt_marshal e | None => [] end
-  | RUtc st en => K_clock ++ [EQ] ++ utc_marshal st ++ [DASH] ++ match en with Some e => utc_marshal e | None => [] end
+  | RSmpte st en => (K_smpte, VPlain (smpte_marshal st ++ [DASH] ++ opt_str smpte_marshal en))
+  | RNpt st en => (K_npt, VPlain (npt_marshal st ++ [DASH] ++ opt_str npt_marshal en))
+  | RUtc st en => (K_clock, VPlain (utc_marshal st ++ [DASH] ++ opt_str utc_marshal en))
   end.
 
-Definition range_marshal (h : range) : list N :=
-  range_value_marshal (r_value h)
-  ++ match r_time h with Some t => [SEMI] ++ K_time ++ [EQ] ++ utc_marshal t | None => [] end.
+Definition range_kvitems (h : range) : list item :=
+  [range_value_item (r_value h)] ++ opt_it (r_time h) (fun t => (K_time, VPlain (utc_marshal t))).
+Definition range_marshal (h : range) : list N := render_items [SEMI] (range_kvitems h).
 
 (* ---- wire ---- *)
 Definition enc_smpte (t : smpte_time) : list N := putz (sm_time t) ++ [sm_frame t; sm_sub t].
